@@ -613,7 +613,7 @@ BlocksAsWritten ==
             /\ d.bl[i].tr = w.bl[i].sep
 
 \* C15
-NormalForm       == (Mode # "lts" /\ phase = "text") => (NormalFormOf(Res.doc) /\ NormalFormOf(PEofF(P, "lines").doc))
+NormalForm       == (Mode # "lts" /\ phase = "text") => (NormalFormOf(Res.doc) /\ (~P.nonblank => NormalFormOf(PEofF(P, "lines").doc)))
 \* the two input forms differ on blank-only texts only
 FormsAgree       == (Mode # "lts" /\ phase = "text" /\ P.nonblank) => PEofF(P, "lines") = PEofF(P, "text")
 NormalFormEdited == phase = "edit" => NormalFormOf(D)
